@@ -410,8 +410,14 @@ func (w *World) Violate(class, format string, args ...interface{}) {
 func (w *World) Logf(format string, args ...interface{}) {
 	if w.LogOn {
 		w.Log = append(w.Log, fmt.Sprintf(format, args...))
+		if echoLog {
+			// interleaved with the wallet's own log (VERIF_LOG) when a run is looked at by hand
+			fmt.Println("SIM| " + fmt.Sprintf(format, args...))
+		}
 	}
 }
+
+var echoLog = os.Getenv("VERIF_LOG") != ""
 
 //go:norace
 func (w *World) Stat(k string) { w.Stats[k]++ }
